@@ -20,24 +20,10 @@ def run_check(prop_id, tier, seed, repo=None):
         from .report import run_property
         index = get_index(repo)
         res = run_property(prop_id, index, tier=tier, seed=seed)
-        # anti-vacuity: every rule that decided something on the confirmed tree must still decide something; a rule
-        # whose recogniser matches nothing any more is an analysis error (exit 2), never a silent pass
-        try:
-            conf_all = json.load(open(os.path.join(os.path.dirname(os.path.abspath(__file__)), "confirmed_rules.json")))
-        except Exception:
-            conf_all = {}
-        confirmed = conf_all.get(prop_id, [])
-        lost = [r_ for r_ in confirmed if res.rules.get(r_, {}).get("instances", 0) == 0]
-        # rules with few, structural instances (identities, recognisers): each confirmed instance must still be decided
-        for r_, keys_ in conf_all.get("instances", {}).get(prop_id, {}).items():
-            gone = sorted(set(keys_) - {k_.split(":unweighted")[0] for k_ in res.decided.get(r_, set())} - res.decided.get(r_, set()))
-            # an instance that now carries a finding has a longer key (suffix): compare by prefix
-            gone = [g_ for g_ in gone if not any(d_.startswith(g_) for d_ in res.decided.get(r_, set()))]
-            if gone and r_ not in lost:
-                lost.append(f"{r_}[{'; '.join(gone[:3])}]")
-        if lost and not res.findings:
-            raise AnalysisError(f"rule(s) {lost} decided nothing on this tree (confirmed on the pinned tree): "
-                                f"{'; '.join(res.not_in_fragment[:3]) or 'construct not recognised'}")
+        from .report import confirmed_lost
+        lost_msg = confirmed_lost(prop_id, res)
+        if lost_msg and not res.findings:
+            raise AnalysisError(lost_msg)
         code = finish(res, tier, seed, t0)
         if res.incomplete and code == 0:
             print(f"ANALYSIS-ERROR property={prop_id}: {res.incomplete}")
